@@ -101,6 +101,8 @@ Scenarios ==
     \cup [kind : {"stat"}, stat : {"king", "r0", "r1", "f2", "fst", "pi_xy"}, shape : {<<1, 9>>, <<9, 1>>, <<3, 3>>, <<9>>, <<3, 3, 1>>, <<1, 3, 3>>, <<3, 4>>, <<4, 3>>}]
     \* empty spectra whose zero-length axis is not the last one, next to absurdly long axes: every tool and option on them
     \cup [kind : {"shapeop"}, shape : AbsurdShapes, format : {"text", "npy"}, op : ShapeOps]
+    \* one population per sample for so many samples that the spectrum (3^n cells) cannot be addressed: a request error
+    \cup [kind : {"manypops"}, n : {40, 45, 64}, project : BOOLEAN]
     \* --threads at and beyond any sensible bound, on every container
     \cup [kind : {"threads"}, t : ThreadCounts, container : {"vcf", "vcf.gz", "bcf", "rawbcf"}]
 
@@ -121,6 +123,7 @@ StatDomain(stat, sh) ==
 
 Expect(s) ==
     CASE s.kind = "stat" -> StatDomain(s.stat, s.shape)
+      [] s.kind = "manypops" -> "err"
       [] s.kind = "threads" -> "ok"            \* any --threads value behaves like any other (C12)
       [] OTHER -> "ok_or_err"
 
@@ -133,6 +136,7 @@ AsBuiltPanics(s) ==
     \/ s.kind = "view" /\ s.o.opt = "precision" /\ s.o.val \in {"65536", "70000"}
     \/ s.kind = "samples" /\ s.list \in {"dup_diff_label", "dup_unnamed_named"}
     \/ s.kind = "input" /\ s.input \in {"empty", "1byte", "5bytes", "text_shape_overflow", "npy_shape_overflow"}
+    \/ s.kind = "manypops"
     \/ s.kind = "shapeop" /\ s.shape = "2/0/3" /\ s.op = <<"view", "-m", "2">>
     \/ s.kind = "shapeop" /\ s.shape = "0/18446744073709551615/18446744073709551615" /\ s.op \in {<<"fold">>, <<"view", "-m", "0">>}
     \/ s.kind = "threads" /\ s.t \in {"20000", "100000", "4294967296", "9223372036854775807", "18446744073709551615"} /\ s.container \in {"vcf.gz", "bcf"}
